@@ -260,7 +260,11 @@ func Parallel(n, w int, fn func(i int)) {
 			}
 		}()
 	}
+	only := os.Getenv("VERIF_ONLY") // debugging aid: run one batch index; never set by the driver
 	for i := 0; i < n; i++ {
+		if only != "" && only != fmt.Sprint(i) {
+			continue
+		}
 		ch <- i
 	}
 	close(ch)
